@@ -6,6 +6,12 @@ HERE = os.path.dirname(os.path.dirname(os.path.abspath(__file__)))
 
 # property id -> (simulator, design section, technique, level text, level note)
 BUILT = {
+    "C10": (
+        "F", "5/C10",
+        "deterministic simulation: one seeded engine history run three ways (step-by-step reference, sync_run_with_audit with the simulator as Iterator feed, async_run_with_audit on a paused tokio runtime with the simulator as Stream feed) + real StateReplicaManager behind a fault-injecting audit network (loss/dup/swap/replay, dropped audit receiver)",
+        "Seeded search over engine event histories (market/account items, fills, reconnect notices, trading toggles, the four commands, scripted strategy output, execution-link faults; ended by shutdown, feed end or a fatal error) through the sync and async auditing runners. Checks one tick per event carrying that event with consecutive sequences after the snapshot and a terminal last tick (A1), replica == engine after every tick with in-flight markers set aside (A2), and skip / reject behaviour under audit tick loss, duplication, swap and replay (A3).",
+        "Trusted: the reference trace is produced by the real process_with_audit (its tick structure is checked independently against the fed events); order comparison normalisation (drop open-in-flight, cancel-in-flight(Some o) -> open(o)). Workload restrictions: unique client order ids, strategies only issue requests in callbacks, default instrument/global data. EngineFeedMode::Iterator's spawn_blocking thread is not used (the sync runner is called directly).",
+    ),
     "C03": (
         "B", "5/C03",
         "deterministic simulation: real Engine::process behind fault-injecting execution links (healthy/unhealthy/closed/missing, unknown exchange index), scripted strategy + risk refusals, trading toggles and commands; audit vs link logs vs in-flight marks after every event",
